@@ -377,6 +377,23 @@ class SsbGraphMinimizer:
                             g.delete_edges(case_edge.index)
                         vs_to_delete.add(next_vertex)
                         next_vertex = else_edge_target_vertex
+                    # A label in front of a case means that something jumps into the list of cases. The list collected above
+                    # ends there, the remaining cases could not be written as part of this switch and would be lost.
+                    v_after_labels = next_vertex
+                    while (
+                        v_after_labels is not None
+                        and isinstance(v_after_labels["op"], SsbLabel)
+                        and len(v_after_labels.out_edges()) == 1
+                    ):
+                        v_after_labels = v_after_labels.out_edges()[0].target_vertex
+                    if (
+                        v_after_labels is not None
+                        and v_after_labels != next_vertex
+                        and isinstance(v_after_labels["op"], SsbLabelJump)
+                        and v_after_labels["op"].maybe_root is not None
+                        and v_after_labels["op"].root.op_code.name in possible_cases
+                    ):
+                        raise ValueError("A case of a switch is the target of a jump. This can not be written as a switch.")
                     # Else edge:
                     if next_vertex is not None:
                         v_else_edge = next(e for e in v.out_edges() if e["switch_ops"] is None)
